@@ -21,6 +21,12 @@ for pid in claimed:
     known='|'.join(k['signature'] for k in kf if k['property']==pid and not k.get('fixed'))
     for camp in c['campaigns']:
         name=camp['name']; dirs=[]
+        if camp.get('real_scheduler'):
+            # supplementary campaign whose interleavings come from the real Go scheduler (no hook to own them):
+            # its verdict (linearizability of the recorded history) is schedule-independent, its log is not
+            res['%s/%s'%(pid,name)]={'runs':0,'identical':None,'skipped':'real scheduler: not a seeded-schedule campaign'}
+            print('%s/%s skipped (real scheduler)'%(pid,name),flush=True)
+            continue
         procs=[]
         for gmp in (1,16):
             d='/tmp/verif-selftest/%s-%s-%d'%(pid,name,gmp); shutil.rmtree(d,ignore_errors=True); dirs.append(d)
